@@ -70,6 +70,16 @@ class Zoo(object):
             self.linked = self.o.id['x']
             # d reads o.x as f + 10 ; o reads d.f as x - 10
             self.dc.add_link(ComponentLink([self.f], self.linked, using=lambda v: v + 10.0, inverse=lambda v: v - 10.0))
+            # an image whose two pixel axes are the LAST TWO axes of d in swapped order (other dimensionality for 3-d, other
+            # axis numbering for 2-d): regions drawn on the image's pixel axes select elements of d through the links
+            self.img = None
+            if self.ndim >= 2:
+                from glue.core.link_helpers import LinkSame
+                self.img = Data(label=label + '_image', v=np.zeros((shape[-1], shape[-2])))
+                self.dc.append(self.img)
+                ip = list(self.img.pixel_component_ids)
+                self.dc.add_link(LinkSame(self.pix[-1], ip[0]))
+                self.dc.add_link(LinkSame(self.pix[-2], ip[1]))
 
     def attributes(self):
         """name -> ComponentID for every attribute kind readable from d."""
@@ -151,6 +161,10 @@ def selection_factories(z):
                                                            pretransform=P.ProjectionMplTransform('rectilinear', [-2.0, 3.0], [-3.0, 3.0], 'linear', 'linear'))
     except ImportError:
         pass
+    if getattr(z, 'img', None) is not None:
+        ip = list(z.img.pixel_component_ids)
+        # x = the image's axis 1 (= d's second-to-last axis), y = the image's axis 0 (= d's last axis)
+        F['roi_other_pixels'] = lambda: S.RoiSubsetState(xatt=ip[1], yatt=ip[0], roi=R.RectangularROI(-0.5, 0.5, 0.5, 5.5))
     F['roi_nd_2att'] = lambda: S.RoiSubsetStateNd(atts=[z.f, z.i], roi=R.RectangularROI(-0.75, 1.25, -1.5, 1.5))
     proj = np.array([[1.0, 0.0, 0.0, 0.0], [0.0, 1.0, 0.0, 0.0], [0.0, 0.0, 1.0, 0.0], [0.0, 0.0, 0.0, 1.0]])
     F['roi3d'] = lambda: S.RoiSubsetState3d(z.f, z.i, z.g, R.Projected3dROI(R.RectangularROI(-0.75, 1.75, -1.5, 1.5), proj))
